@@ -128,6 +128,13 @@ Open ==
     /\ E.empty = (Len(Items(fsts[E.f])) = 0)
     /\ UNCHANGED <<mdl, bld, fsts, auts, strm, ops>>
 
+\* verify() on an FST that opened: versions 1 and 2 carry no checksum (C10)
+VerifyEv ==
+    /\ IsEvent("Verify")
+    /\ E.f \in DOMAIN fsts
+    /\ E.res = IF E.version < 3 THEN [err |-> "ChecksumMissing"] ELSE OkRes
+    /\ UNCHANGED <<mdl, bld, fsts, auts, strm, ops>>
+
 ---------------------------------------------------------------------------
 (* lookups (C02), get_key (C16) *)
 Get ==
@@ -190,9 +197,8 @@ SNew ==
 SNext ==
     /\ IsEvent("SNext")
     /\ E.s \in DOMAIN strm
-    /\ LET s == strm[E.s]
-           c == Items(s.m)
-           A == AutOf(s) IN
+    /\ \E s \in {strm[E.s]} : \E A \in {AutOf(s)} :
+       LET c == Items(s.m) IN
        /\ ~s.done
        /\ NextOK(c, s.from, s.to, A, s.pos, E.idx)
        /\ IF E.idx = 0 THEN E.res = None
@@ -249,7 +255,7 @@ PredEv ==
     /\ UNCHANGED <<mdl, bld, fsts, auts, strm, ops>>
 
 Next == \/ Reset \/ Model \/ BNew \/ BCall \/ BExt \/ BFinish \/ Have \/ Open
-        \/ Get \/ ContainsEv \/ IncModel \/ GetKey
+        \/ VerifyEv \/ Get \/ ContainsEv \/ IncModel \/ GetKey
         \/ AutDef \/ SNew \/ SNext \/ ONew \/ ONext \/ PredEv
 
 Spec == Init /\ [][Next]_vars
